@@ -3,35 +3,65 @@
 #ifndef TETL_CMATH_SQRT_HPP
 #define TETL_CMATH_SQRT_HPP
 
+#include <etl/_config/all.hpp>
+
 #include <etl/_3rd_party/gcem/gcem.hpp>
 #include <etl/_concepts/integral.hpp>
+#include <etl/_concepts/same_as.hpp>
+#include <etl/_type_traits/is_constant_evaluated.hpp>
 
 namespace etl {
 
-/// Computes the square root of arg.
-/// \details https://en.cppreference.com/w/cpp/numeric/math/sqrt
-/// \ingroup cmath
-[[nodiscard]] constexpr auto sqrt(float arg) noexcept -> float { return etl::detail::gcem::sqrt(arg); }
+namespace detail {
+
+inline constexpr struct sqrt {
+    template <typename Float>
+    [[nodiscard]] constexpr auto operator()(Float arg) const noexcept -> Float
+    {
+#if not defined(__AVR__)
+        if (not is_constant_evaluated()) {
+    #if __has_builtin(__builtin_sqrtf)
+            if constexpr (etl::same_as<Float, float>) {
+                return __builtin_sqrtf(arg);
+            }
+    #endif
+    #if __has_builtin(__builtin_sqrt)
+            if constexpr (etl::same_as<Float, double>) {
+                return __builtin_sqrt(arg);
+            }
+    #endif
+        }
+#endif
+        return etl::detail::gcem::sqrt(arg);
+    }
+} sqrt;
+
+} // namespace detail
 
 /// Computes the square root of arg.
 /// \details https://en.cppreference.com/w/cpp/numeric/math/sqrt
 /// \ingroup cmath
-[[nodiscard]] constexpr auto sqrtf(float arg) noexcept -> float { return etl::detail::gcem::sqrt(arg); }
+[[nodiscard]] constexpr auto sqrt(float arg) noexcept -> float { return etl::detail::sqrt(arg); }
 
 /// Computes the square root of arg.
 /// \details https://en.cppreference.com/w/cpp/numeric/math/sqrt
 /// \ingroup cmath
-[[nodiscard]] constexpr auto sqrt(double arg) noexcept -> double { return etl::detail::gcem::sqrt(arg); }
+[[nodiscard]] constexpr auto sqrtf(float arg) noexcept -> float { return etl::detail::sqrt(arg); }
 
 /// Computes the square root of arg.
 /// \details https://en.cppreference.com/w/cpp/numeric/math/sqrt
 /// \ingroup cmath
-[[nodiscard]] constexpr auto sqrt(long double arg) noexcept -> long double { return etl::detail::gcem::sqrt(arg); }
+[[nodiscard]] constexpr auto sqrt(double arg) noexcept -> double { return etl::detail::sqrt(arg); }
 
 /// Computes the square root of arg.
 /// \details https://en.cppreference.com/w/cpp/numeric/math/sqrt
 /// \ingroup cmath
-[[nodiscard]] constexpr auto sqrtl(long double arg) noexcept -> long double { return etl::detail::gcem::sqrt(arg); }
+[[nodiscard]] constexpr auto sqrt(long double arg) noexcept -> long double { return etl::detail::sqrt(arg); }
+
+/// Computes the square root of arg.
+/// \details https://en.cppreference.com/w/cpp/numeric/math/sqrt
+/// \ingroup cmath
+[[nodiscard]] constexpr auto sqrtl(long double arg) noexcept -> long double { return etl::detail::sqrt(arg); }
 
 /// Computes the square root of arg.
 /// \details https://en.cppreference.com/w/cpp/numeric/math/sqrt
@@ -39,7 +69,7 @@ namespace etl {
 template <integral T>
 [[nodiscard]] constexpr auto sqrt(T arg) noexcept -> double
 {
-    return etl::detail::gcem::sqrt(static_cast<double>(arg));
+    return etl::detail::sqrt(static_cast<double>(arg));
 }
 
 } // namespace etl
